@@ -117,6 +117,28 @@ fn c05_make_file(r: &mut Rng, idx: u64, cover: &mut crate::Cover) -> Option<File
                         cover.hit(&format!("c05:out-of-set-state:{}", tag));
                     }
                 }
+                if r.chance(1, 5) {
+                    // extension attributes whose local names equal standard ones, in front of / between / behind the
+                    // standard attributes: the simple view is a function of the STANDARD attributes only
+                    if !ext_added {
+                        new_items.push(Item::Ext(Extension::new("hx", "http://harness.invalid/hx")));
+                        ext_added = true;
+                    }
+                    for _ in 0..(1 + r.usize(3)) {
+                        let nm = *r.pick(&["intensity", "rowIndex", "columnIndex", "cartesianInvalidState", "sphericalInvalidState", "colorRed", "colorGreen", "timeStamp", "cartesianX", "sphericalRange", "isIntensityInvalid", "isColorInvalid", "returnIndex"]);
+                        if pc.prototype.iter().any(|x| matches!(&x.name, RecordName::Unknown { name, .. } if name == nm)) {
+                            continue;
+                        }
+                        let dt = match r.usize(3) {
+                            0 => RecordDataType::Integer { min: 0, max: 2 },
+                            1 => RecordDataType::Integer { min: 3, max: 200 },
+                            _ => RecordDataType::Single { min: None, max: None },
+                        };
+                        let at = r.usize(pc.prototype.len() + 1);
+                        pc.prototype.insert(at, Record { name: RecordName::Unknown { namespace: "hx".into(), name: nm.to_string() }, data_type: dt });
+                        cover.hit(&format!("c05:extension-attribute-named-like-standard:{}", if at == 0 { "first" } else { "later" }));
+                    }
+                }
                 let n = pc.points.len();
                 pc.points = (0..n).map(|_| tame_point(r, &pc.prototype, wild)).collect();
                 if r.chance(2, 3) {
